@@ -130,32 +130,13 @@ Proof.
   - now apply IH.
 Qed.
 
-Lemma add_new_headers_In : forall hs D0, incl (D0 ++ hs) G ->
-  forall x, In x (add_new_headers hs D0) <-> In x D0 \/ In x hs.
-Proof.
-  induction hs as [|y r IH]; intros D0 HG x; cbn [add_new_headers].
-  - cbn. tauto.
-  - destruct (existsb (fun z => hh z =? hh y) D0) eqn:E.
-    + rewrite IH.
-      * cbn. split; [tauto|]. intros [H|[<-|H]]; auto.
-        apply existsb_exists in E. destruct E as (z & Hz & Ez). apply N.eqb_eq in Ez.
-        left. replace y with z; [exact Hz|]. apply Gcons; auto; apply HG; rewrite in_app_iff; [now left|right; now left].
-      * intros z Hz. apply HG. rewrite in_app_iff in *. cbn. tauto.
-    + rewrite IH.
-      * rewrite in_app_iff. cbn. tauto.
-      * intros z Hz. apply HG. rewrite !in_app_iff in *. cbn in *. tauto.
-Qed.
-
 (* ---- the BlockChain invariant *)
-Record BI (bc : blockchain) (sh : shadow) (D : list header) (allops : list op) : Prop := {
+Record BI (bc : blockchain) (D : list header) (allops : list op) : Prop := {
   b_fok : finder_ok (bc_cf bc);
-  b_fk : forall x, dget x (pl (bc_cf bc)) = dget x (sh_fk sh);
-  b_par : bc_parent bc = sh_anchor sh;
-  b_nl : length (bc_locked bc) = sh_nlocked sh;
   b_unk : ~ kn (pl (bc_cf bc)) (bc_parent bc);
   b_link : link D (pl (bc_cf bc)) (bc_w bc) (bc_parent bc);
-  b_shD : forall x, In x (sh_D sh) <-> In x D;
   b_anchor : bc_parent bc = last (map fst3 (bc_locked bc)) anchor0;
+  b_anc_in : bc_parent bc = anchor0 \/ exists x, In x D /\ hh x = bc_parent bc;
   b_cache : exists c, bc_cache bc = Some c /\
      (c = [] \/ ppath (pl (bc_cf bc)) (kn (pl (bc_cf bc))) (hd 0 c) (c ++ [bc_parent bc])) /\
      heaviest D (bc_parent bc) (rev c) /\
@@ -172,16 +153,16 @@ Proof.
   - destruct k; [cbn in Hl; lia|]. cbn [nth]. rewrite last_cons_ne by discriminate. apply IH. cbn in *. lia.
 Qed.
 
-Lemma BI_good bc sh D allops s c :
-  BI bc sh D allops -> bc_cache bc = Some c ->
+Lemma BI_good bc D allops s c :
+  BI bc D allops -> bc_cache bc = Some c ->
   s_chain s = chain_of bc c -> s_locked s = length (bc_locked bc) -> s_h2i s = bc_h2i bc ->
   good_snapshot anchor0 D allops s.
 Proof.
-  intros B Hc Es El Eh. destruct (b_cache _ _ _ _ B) as (c0 & Hc0 & _ & Hheavy & Hchain & Hmaps & Hops).
+  intros B Hc Es El Eh. destruct (b_cache _ _ _ B) as (c0 & Hc0 & _ & Hheavy & Hchain & Hmaps & Hops).
   rewrite Hc in Hc0. inversion Hc0; subst c0. unfold good_snapshot. rewrite Es, Eh.
   split; [exact Hchain|]. split; [|split; [exact Hmaps|exact Hops]].
   assert (Ea : snapshot_anchor anchor0 s = bc_parent bc).
-  { unfold snapshot_anchor. rewrite El, Es, (b_anchor _ _ _ _ B). unfold chain_of.
+  { unfold snapshot_anchor. rewrite El, Es, (b_anchor _ _ _ B). unfold chain_of.
     destruct (bc_locked bc) as [|t r] eqn:E; [reflexivity|].
     cbn [length]. rewrite app_nth1 by (rewrite map_length; cbn; lia).
     apply nth_last_len. rewrite map_length. reflexivity. }
@@ -227,45 +208,47 @@ Proof.
   - now rewrite Hl.
 Qed.
 
-Lemma deliver_step bc sh D allops hs prio pref sh' :
-  BI bc sh D allops -> incl (D ++ hs) G ->
-  shadow_step (Deliver hs prio pref) sh = Clean sh' ->
+
+Lemma deliver_step bc D allops hs prio pref :
+  BI bc D allops -> incl (D ++ hs) G ->
   exists s bc', step (Deliver hs prio pref) bc = inl (s, bc') /\
-     good_snapshot anchor0 (D ++ hs) (allops ++ ops_of s) s /\ BI bc' sh' (D ++ hs) (allops ++ ops_of s).
+     good_snapshot anchor0 (D ++ hs) (allops ++ ops_of s) s /\ BI bc' (D ++ hs) (allops ++ ops_of s).
 Proof.
-  intros B HG Hsh.
+  intros B HG.
   assert (HD : incl D G) by (intros x Hx; apply HG; rewrite in_app_iff; now left).
   assert (Hhs : incl hs G) by (intros x Hx; apply HG; rewrite in_app_iff; now right).
-  cbn [shadow_step] in Hsh.
-  destruct (existsb (fun x => hh x =? sh_anchor sh) hs) eqn:E2; [discriminate|].
-  set (nodes := map (fun x => (hh x, hp x)) hs) in *.
-  destruct (bad_batch (sh_fk sh) nodes) eqn:E1; [discriminate|].
-  injection Hsh as <-.
-  destruct (b_cache _ _ _ _ B) as (c & Hc & Hcp & Hheavy & Hchain & Hmaps & Hops).
-  pose proof (b_link _ _ _ _ B) as L0. pose proof (b_fok _ _ _ _ B) as F0.
+  destruct (b_cache _ _ _ B) as (c & Hc & Hcp & Hheavy & Hchain & Hmaps & Hops).
+  pose proof (b_link _ _ _ B) as L0. pose proof (b_fok _ _ _ B) as F0.
   set (cf := bc_cf bc) in *. set (a := bc_parent bc) in *.
+  set (hs' := filter (fun x => negb (hh x =? a)) hs).
+  set (nodes := map (fun x => (hh x, hp x)) hs').
+  assert (Hhs' : forall x, In x hs' <-> In x hs /\ hh x <> a).
+  { intros x. unfold hs'. rewrite filter_In. destruct (N.eqb_spec (hh x) a); cbn; intuition congruence. }
   destruct (register nodes (pl cf) []) as [p' N0] eqn:Hreg.
-  destruct (register nodes (sh_fk sh) []) as [ps Ns] eqn:Hregs.
-  destruct (register_ext _ _ _ _ _ _ _ _ (b_fk _ _ _ _ B) Hreg Hregs) as [EN Eext]. subst Ns.
   destruct (register_spec _ _ _ _ _ Hreg) as [R1 R2].
   destruct (register_dget _ _ _ _ _ Hreg) as [R3 R4].
-  set (w' := set_weights hs (bc_w bc)).
-  assert (Hnoanchor : forall x, In x hs -> hh x <> a).
-  { intros x Hx Ex. rewrite <- not_true_iff_false in E2. apply E2. apply existsb_exists. exists x. split; [exact Hx|].
-    apply N.eqb_eq. rewrite Ex. unfold a. apply (b_par _ _ _ _ B). }
-  assert (Hnodes : forall h q, In (h, q) nodes -> exists x, In x hs /\ hh x = h /\ hp x = q).
+  set (w' := set_weights hs' (bc_w bc)).
+  assert (Hnodes : forall h q, In (h, q) nodes -> exists x, In x hs' /\ hh x = h /\ hp x = q).
   { intros h q H. unfold nodes in H. apply in_map_iff in H. destruct H as (x & Ex & Hx). inversion Ex; subst. eauto. }
   assert (Hunk' : ~ kn p' a).
   { intros K. unfold kn in K. destruct (dget a p') as [q|] eqn:E; [|congruence]. destruct (R3 _ _ E) as [H|H].
-    - apply (b_unk _ _ _ _ B). fold cf a. unfold kn. congruence.
-    - destruct (Hnodes _ _ H) as (x & Hx & Ex & _). eapply Hnoanchor; eauto. }
+    - apply (b_unk _ _ _ B). fold cf a. unfold kn. congruence.
+    - destruct (Hnodes _ _ H) as (x & Hx & Ex & _). apply Hhs' in Hx. tauto. }
+  (* a delivered header is either old or one of the headers actually handed to the finder *)
+  assert (Hsplit : forall x, In x (D ++ hs) -> In x D \/ In x hs').
+  { intros x Hx. apply in_app_iff in Hx. destruct Hx as [Hx|Hx]; [now left|].
+    destruct (N.eq_dec (hh x) a) as [E|E]; [|right; apply Hhs'; auto].
+    left. destruct (b_anc_in _ _ _ B) as [Ea|(y & Hy & Ey)].
+    - exfalso. apply (proj2 (Gpos x (Hhs _ Hx))). rewrite E. exact Ea.
+    - replace x with y; [exact Hy|]. apply Gcons; auto. rewrite E. exact Ey. }
+  assert (Hhs'G : incl hs' G) by (intros x Hx; apply Hhs; now apply Hhs').
   assert (L' : link (D ++ hs) p' w' a).
   { constructor.
     - intros h q E. destruct (R3 _ _ E) as [H|H].
       + destruct (l_pD _ _ _ _ L0 _ _ H) as (x & Hx & ? & ?). exists x. rewrite in_app_iff. auto.
-      + destruct (Hnodes _ _ H) as (x & Hx & ? & ?). exists x. rewrite in_app_iff. auto.
-    - intros x Hx. apply in_app_iff in Hx. destruct Hx as [Hx|Hx].
-      + destruct (l_Dp _ _ _ _ L0 _ Hx) as [H|H]; [left; now apply R1|now right].
+      + destruct (Hnodes _ _ H) as (x & Hx & ? & ?). exists x. rewrite in_app_iff. apply Hhs' in Hx. tauto.
+    - intros x Hx. destruct (Hsplit _ Hx) as [Hx'|Hx'].
+      + destruct (l_Dp _ _ _ _ L0 _ Hx') as [H|H]; [left; now apply R1|now right].
       + left. assert (K : dget (hh x) p' <> None).
         { apply (R4 (hh x) (hp x)). unfold nodes. apply in_map_iff. exists x. auto. }
         destruct (dget (hh x) p') as [q|] eqn:E; [|congruence]. f_equal.
@@ -276,9 +259,10 @@ Proof.
           assert (y = x) by (apply Gcons; auto). subst y. now symmetry.
     - intros x Hx.
       assert (K : dget (hh x) w' <> None).
-      { apply in_app_iff in Hx. destruct Hx as [Hx|Hx].
-        - apply set_weights_keeps. rewrite (l_w _ _ _ _ L0 _ Hx). discriminate.
+      { destruct (Hsplit _ Hx) as [Hx'|Hx'].
+        - apply set_weights_keeps. rewrite (l_w _ _ _ _ L0 _ Hx'). discriminate.
         - now apply set_weights_has. }
+      assert (HxG : In x G) by (now apply HG).
       destruct (dget (hh x) w') as [z|] eqn:E; [|congruence]. f_equal.
       destruct (set_weights_get _ _ _ _ E) as [H|(y & Hy & Ey1 & Ey2)].
       + destruct (l_wD _ _ _ _ L0 _ _ H) as (y & Hy & Ey1 & Ey2).
@@ -286,23 +270,17 @@ Proof.
       + assert (y = x) by (apply Gcons; auto). subst y. now symmetry.
     - intros h z E. destruct (set_weights_get _ _ _ _ E) as [H|(y & Hy & Ey1 & Ey2)].
       + destruct (l_wD _ _ _ _ L0 _ _ H) as (y & Hy & ? & ?). exists y. rewrite in_app_iff. auto.
-      + exists y. rewrite in_app_iff. auto. }
+      + exists y. rewrite in_app_iff. apply Hhs' in Hy. tauto. }
   assert (Hrk' : ranked rk p') by exact (link_ranked _ _ _ _ HG L').
-  destruct (load_nodes_safe rk cf nodes p' N0 F0 Hreg Hrk') with (prio := prio) as (cf' & Hload & F' & Epl').
-  { eapply safe_batch_ext; [| |eapply (bad_batch_safe rk); [exact Hregs| |exact E1]].
-    - intros x. symmetry. apply (b_fk _ _ _ _ B).
-    - intros x. symmetry. apply Eext.
-    - intros h q E. apply (Hrk' h q). now rewrite Eext. }
+  destruct (load_nodes_ok rk cf nodes p' N0 F0 Hreg Hrk') with (prio := prio) as (cf' & Hload & F' & Epl').
   rewrite <- Epl' in *.
   destruct (reported_heaviest pref a w' cf' F' Hunk') as (c' & (cs & Hall & Ec') & Hpc & Hmax & Htree).
   { intros h. exact (link_weight_nonneg _ _ _ _ HG L' h). }
   { intros h. exact (link_weight_pos _ _ _ _ HG L' h). }
-  (* the new chain is heaviest among the delivered headers *)
   assert (Hheavy' : heaviest (D ++ hs) a (rev c')).
   { split; [exact (pchain_is_chain _ _ _ _ L' _ _ Hpc)|].
     intros c'' Hc''. rewrite <- !(link_chain_weight _ _ _ _ HG L'). apply Hmax.
     exact (is_chain_pchain _ _ _ _ HG L' _ _ Hc'' (le_n _)). }
-  (* both chains as full paths of the new finder *)
   assert (Hcp' : c = [] \/ ppath (pl cf') (kn (pl cf')) (hd 0 c) (c ++ [a])).
   { destruct Hcp as [->|Hp]; [now left|right]. eapply ppath_grow; eauto. now rewrite last_app_ne by discriminate. }
   assert (Hc'p : c' = [] \/ ppath (pl cf') (kn (pl cf')) (hd 0 c') (c' ++ [a])).
@@ -312,7 +290,7 @@ Proof.
   assert (HchainL : is_chain (D ++ hs) anchor0 Lk /\ a = last Lk anchor0).
   { unfold chain_of in Hchain. fold Lk in Hchain. apply is_chain_app in Hchain. destruct Hchain as [H1 _].
     split; [eapply is_chain_incl; [|exact H1]; intros x Hx; rewrite in_app_iff; now left|].
-    apply (b_anchor _ _ _ _ B). }
+    apply (b_anchor _ _ _ B). }
   destruct HchainL as [HchL Ea].
   assert (Hchain' : is_chain (D ++ hs) anchor0 (Lk ++ rev c')).
   { apply is_chain_app. split; [exact HchL|]. rewrite <- Ea. apply Hheavy'. }
@@ -326,7 +304,7 @@ Proof.
   destruct (observe_spec pref (Some (rops ++ aops)) bc' c' eq_refl) as (s & Hobs & Hso & Hsc & Hsl & Hsh).
   assert (Hstep : step (Deliver hs prio pref) bc = inl (s, bc')).
   { unfold step, add_headers. unfold longest_local at 1. unfold hash in *. unfold hash in *; rewrite Hc. cbn [lift bind].
-    fold cf. unfold nodes in Hload. unfold hash in *; rewrite Hload. cbn [lift bind].
+    fold cf a. fold hs'. unfold nodes in Hload. unfold hash in *; rewrite Hload. cbn [lift bind].
     unfold longest_local. cbn [bc_cache bc_parent bc_cf bc_w]. fold a. unfold hash in *; rewrite Hall. cbn [lift bind].
     fold w'. unfold hash in *; rewrite <- Ec'. cbn [bc_locked bc_h2i bc_parent bc_w bc_cf bc_cache].
     unfold hash in *; rewrite Hdiff. cbn [lift bind].
@@ -336,19 +314,13 @@ Proof.
     fold bc'. unfold hash in *; rewrite Hobs. reflexivity. }
   exists s, bc'. split; [exact Hstep|].
   assert (Hops_s : ops_of s = rops ++ aops) by (unfold ops_of; now rewrite Hso).
-  assert (B' : BI bc' (mkShadow (sh_anchor sh) (sh_nlocked sh) (add_new_headers hs (sh_D sh)) ps)
-                 (D ++ hs) (allops ++ ops_of s)).
-  { constructor; cbn [bc_cf bc_parent bc_locked bc_w bc_h2i bc_cache bc' sh_fk sh_anchor sh_nlocked sh_D]; unfold hash in *.
+  assert (B' : BI bc' (D ++ hs) (allops ++ ops_of s)).
+  { constructor; cbn [bc_cf bc_parent bc_locked bc_w bc_h2i bc_cache bc']; unfold hash in *.
     - exact F'.
-    - intros x. apply Eext.
-    - apply (b_par _ _ _ _ B).
-    - apply (b_nl _ _ _ _ B).
     - exact Hunk'.
     - exact L'.
-    - intros x. rewrite add_new_headers_In.
-      + rewrite in_app_iff, (b_shD _ _ _ _ B). reflexivity.
-      + intros y Hy. apply HG. rewrite in_app_iff in *. rewrite <- (b_shD _ _ _ _ B). exact Hy.
-    - apply (b_anchor _ _ _ _ B).
+    - apply (b_anchor _ _ _ B).
+    - destruct (b_anc_in _ _ _ B) as [H|(x & Hx & Ex)]; [now left|right]. exists x. rewrite in_app_iff. auto.
     - exists c'. split; [reflexivity|]. split; [exact Hc'p|]. split; [exact Hheavy'|].
       unfold chain_of. cbn [bc_locked]. fold Lk. split; [exact Hchain'|]. split.
       + rewrite Ec''. exact Hmaps'.
@@ -357,7 +329,6 @@ Proof.
   eapply BI_good; [exact B'|reflexivity|exact Hsc|exact Hsl|exact Hsh].
 Qed.
 
-(* ---- executable spec functions *)
 Lemma chains_from_sound D : forall fuel a c, In c (chains_from fuel D a) -> is_chain D a c.
 Proof.
   induction fuel as [|f IH]; cbn; intros a c H.
@@ -394,47 +365,6 @@ Proof.
       * destruct C as [C|(c' & Hc' & E)]; [now left|right]. exists c'. split; [now right|exact E].
       * right. exists c. split; [now left|reflexivity].
 Qed.
-Lemma heaviest_in_chains D a c : incl D G -> heaviest D a c -> In c (heaviest_chains D a).
-Proof.
-  intros HD [Hc Hmax]. unfold heaviest_chains. apply filter_In.
-  assert (Hin : In c (chains_from (length D) D a)).
-  { apply chains_from_complete; [exact Hc|]. eapply is_chain_length; eauto. }
-  split; [exact Hin|]. apply Z.eqb_eq.
-  destruct (max_weight_spec D (chains_from (length D) D a)) as (A & B & C).
-  apply A in Hin. apply Z.le_antisymm; [exact Hin|].
-  destruct C as [C|(c' & Hc' & E)].
-  - rewrite C. apply (Hmax []). constructor.
-  - rewrite <- E. apply Hmax. eapply chains_from_sound; eauto.
-Qed.
-Lemma list_eqb_eq : forall a b, list_eqb a b = true <-> a = b.
-Proof.
-  induction a as [|x r IH]; intros [|y s]; cbn; split; try congruence; try reflexivity.
-  - intros H. apply andb_true_iff in H. destruct H as [H1 H2]. apply N.eqb_eq in H1. apply IH in H2. congruence.
-  - intros H. inversion H; subst. rewrite N.eqb_refl. cbn. now apply IH.
-Qed.
-
-Lemma spec_weight_ext D D' h : (forall x, In x D <-> In x D') -> incl D G -> spec_weight D h = spec_weight D' h.
-Proof.
-  intros Hext HD. assert (HD' : incl D' G) by (intros x Hx; apply HD; now apply Hext).
-  unfold spec_weight. destruct (find_header D h) as [x|] eqn:E.
-  - apply find_header_Some in E. destruct E as [Hx <-]. apply Hext in Hx. now rewrite (find_header_In D' x HD' Hx).
-  - destruct (find_header D' h) as [y|] eqn:E'; [|reflexivity].
-    apply find_header_Some in E'. destruct E' as [Hy <-]. apply Hext in Hy.
-    rewrite (find_header_In D y HD Hy) in E. discriminate.
-Qed.
-Lemma cweight_ext D D' c : (forall x, In x D <-> In x D') -> incl D G -> cweight D c = cweight D' c.
-Proof.
-  intros Hext HD. unfold cweight. induction c as [|h r IH]; cbn; [reflexivity|].
-  now rewrite IH, (spec_weight_ext D D' h Hext HD).
-Qed.
-Lemma heaviest_ext D D' a c : (forall x, In x D <-> In x D') -> incl D G -> heaviest D a c -> heaviest D' a c.
-Proof.
-  intros Hext HD [Hc Hmax]. split.
-  - eapply is_chain_incl; [|exact Hc]. intros x Hx. now apply Hext.
-  - intros c' Hc'. rewrite <- !(cweight_ext D D' _ Hext HD). apply Hmax.
-    eapply is_chain_incl; [|exact Hc']. intros x Hx. now apply Hext.
-Qed.
-
 Lemma lock_items_some w : forall k parent rl, (k <= length rl)%nat ->
   exists items, lock_items w parent rl k = Some items /\ map fst3 items = firstn k rl /\ length items = k.
 Proof.
@@ -485,65 +415,66 @@ Proof.
       apply dget_ddel_neq. intros ->. apply Hn. now left.
 Qed.
 
-Lemma observe_uncached pref ops bc c bc1 :
-  longest_local pref bc = Ret (c, bc1) -> bc_cache bc1 = Some c ->
-  observe pref ops bc = observe pref ops bc1.
+
+Lemma rev_last_cons {A} (l : list A) d : l <> [] -> rev l = last l d :: rev (removelast l).
+Proof. intros H. rewrite (app_removelast_last d H) at 1. rewrite rev_app_distr. reflexivity. Qed.
+
+Lemma ppath_prefix p p' (P P' : hash -> Prop) : forall l1 b x l2, ppath p P b (l1 ++ x :: l2) ->
+  (forall y, In y l1 -> P' y /\ dget y p' = dget y p) -> ~ P' x -> ppath p' P' b (l1 ++ [x]).
 Proof.
-  intros H Hc. unfold observe, bc_length. rewrite H. unfold longest_local at 1. rewrite Hc. reflexivity.
+  induction l1 as [|y r IH]; intros b x l2 Hp Hl1 Hx; cbn [app] in *.
+  - destruct (ppath_hd _ _ _ _ Hp) as (r & E). inversion E; subst. now constructor.
+  - inversion Hp as [t Ht E1 E2 | b0 b' l' Pb Eb Hp' E1 E2]; subst.
+    + destruct r; discriminate.
+    + destruct (Hl1 y (or_introl eq_refl)) as [Py Ey]. econstructor; [exact Py|rewrite Ey; exact Eb|].
+      eapply IH; eauto. intros z Hz. apply Hl1. now right.
 Qed.
 
-Lemma lock_step bc sh D allops n prio pref :
-  BI bc sh D allops -> incl D G ->
-  match shadow_step (Lock n prio pref) sh with
-  | Clean sh' => exists s bc', step (Lock n prio pref) bc = inl (s, bc') /\
-       good_snapshot anchor0 D (allops ++ ops_of s) s /\ BI bc' sh' D (allops ++ ops_of s)
-  | Stopped => step (Lock n prio pref) bc = inr OutOfRange
-  | Excluded _ => True
-  end.
+Lemma lock_step bc D allops n prio pref :
+  BI bc D allops -> incl D G ->
+  (exists s bc', step (Lock n prio pref) bc = inl (s, bc') /\
+       good_snapshot anchor0 D (allops ++ ops_of s) s /\ BI bc' D (allops ++ ops_of s)) \/
+  step (Lock n prio pref) bc = inr OutOfRange.
 Proof.
-  intros B HD. destruct (b_cache _ _ _ _ B) as (c & Hc & Hcp & Hheavy & Hchain & Hmaps & Hops).
-  pose proof (b_link _ _ _ _ B) as L0. pose proof (b_fok _ _ _ _ B) as F0.
-  pose proof (b_nl _ _ _ _ B) as Hnl. pose proof (b_par _ _ _ _ B) as Hpar.
-  cbn [shadow_step]. unfold hash in *.
-  destruct (Nat.leb_spec n (sh_nlocked sh)) as [Hle|Hgt].
+  intros B HD. destruct (b_cache _ _ _ B) as (c & Hc & Hcp & Hheavy & Hchain & Hmaps & Hops).
+  pose proof (b_link _ _ _ B) as L0. pose proof (b_fok _ _ _ B) as F0.
+  unfold hash in *.
+  destruct (Nat.leb_spec n (length (bc_locked bc))) as [Hle|Hgt].
   - (* index below the locked length: nothing happens *)
-    destruct (observe_spec pref None bc c Hc) as (s & Hobs & Hso & Hsc & Hsl & Hsh).
+    left. destruct (observe_spec pref None bc c Hc) as (s & Hobs & Hso & Hsc & Hsl & Hsh).
     exists s, bc.
     assert (Eo : ops_of s = []) by (unfold ops_of; now rewrite Hso). rewrite Eo, app_nil_r.
     split; [|split; [eapply BI_good; eauto|exact B]].
-    unfold step, lock_to_index, longest_local. unfold hash in *. rewrite Hc, Hnl.
-    destruct (Nat.leb_spec n (sh_nlocked sh)); [|lia]. now rewrite Hobs.
-  - set (k := (n - sh_nlocked sh)%nat).
-    assert (Hext : forall x, In x D <-> In x (sh_D sh)) by (intros x; symmetry; apply (b_shD _ _ _ _ B)).
-    assert (HDs : incl (sh_D sh) G) by (intros x Hx; apply HD; now apply Hext).
-    assert (Hin : In (rev c) (heaviest_chains (sh_D sh) (sh_anchor sh))).
-    { apply heaviest_in_chains; [exact HDs|]. rewrite <- Hpar. eapply heaviest_ext; eauto. }
-    destruct (heaviest_chains (sh_D sh) (sh_anchor sh)) as [|c0 r] eqn:Ehc; [destruct Hin|].
-    match goal with |- context [negb ?b] => destruct b eqn:Eall end; cbn [negb]; [|exact I].
-    assert (Huniq : forall c1, In c1 (c0 :: r) -> c1 = c0).
-    { intros c1 [<-|H1]; [reflexivity|]. rewrite forallb_forall in Eall. apply Eall in H1.
-      apply list_eqb_eq in H1. now symmetry. }
-    assert (Ec0 : c0 = rev c) by (symmetry; now apply Huniq). subst c0.
+    unfold step, lock_to_index, longest_local. unfold hash in *. rewrite Hc.
+    match goal with |- context [(n <=? ?x)%nat] => destruct (Nat.leb_spec n x) end; [|lia]. now rewrite Hobs.
+  - set (k := (n - length (bc_locked bc))%nat).
     set (cf := bc_cf bc) in *. set (a := bc_parent bc) in *.
     destruct (Nat.ltb_spec (length (rev c)) k) as [Hlt|Hge].
     + (* lock beyond the reported chain *)
-      unfold step, lock_to_index, longest_local. unfold hash in *. rewrite Hc, Hnl.
-      destruct (Nat.leb_spec n (sh_nlocked sh)); [lia|]. fold k. fold a.
+      right. unfold step, lock_to_index, longest_local. unfold hash in *. rewrite Hc.
+      match goal with |- context [(n <=? ?x)%nat] => destruct (Nat.leb_spec n x) end; [lia|]. fold k. fold a.
       now rewrite (lock_items_none (bc_w bc) k a (rev c) Hlt).
-    + assert (Hk1 : (1 <= k)%nat) by (unfold k; lia).
+    + left. assert (Hk1 : (1 <= k)%nat) by (unfold k; lia).
+      rewrite rev_length in Hge.
       set (LKs := firstn k (rev c)). set (tail := skipn k (rev c)).
+      set (c'' := firstn (length c - k) c).
       assert (Esplit : rev c = LKs ++ tail) by (symmetry; apply firstn_skipn).
+      assert (Etail : rev c'' = tail) by (unfold c'', tail; symmetry; apply skipn_rev).
+      assert (ELK : rev LKs = skipn (length c - k) c).
+      { unfold LKs. rewrite firstn_rev. apply rev_involutive. }
+      assert (Ec : c = c'' ++ rev LKs) by (rewrite ELK; symmetry; apply firstn_skipn).
       assert (HLKne : LKs <> []).
-      { intros E. apply (f_equal (@length N)) in E. unfold LKs in E. rewrite firstn_length in E. cbn in E. lia. }
-      destruct (lock_items_some (bc_w bc) k a (rev c) Hge) as (items & Eitems & Hitems & Hilen).
+      { intros E. apply (f_equal (@length N)) in E. unfold LKs in E. rewrite firstn_length, rev_length in E. cbn in E. lia. }
+      destruct (lock_items_some (bc_w bc) k a (rev c)) as (items & Eitems & Hitems & Hilen); [rewrite rev_length; lia|].
       fold LKs in Hitems.
       set (a' := last LKs a).
       assert (Ha'in : In a' LKs) by (unfold a'; rewrite (last_default LKs a 0 HLKne); now apply last_In).
       destruct Hheavy as [Hch Hmax].
+      assert (Hnd : NoDup (rev c)) by (eapply (is_chain_NoDup D HD); exact Hch).
       assert (Hpc : pchain (pl cf) a (rev c)) by exact (is_chain_pchain _ _ _ _ HD L0 _ _ Hch (le_n _)).
-      rewrite Esplit in Hpc, Hch. apply pchain_app in Hpc. destruct Hpc as [HpcL HpcT].
+      rewrite Esplit in Hpc, Hch, Hnd. apply pchain_app in Hpc. destruct Hpc as [HpcL HpcT].
       apply is_chain_app in Hch. destruct Hch as [HchL HchT]. fold a' in HpcT, HchT.
-      pose proof (b_unk _ _ _ _ B) as Hunk. fold cf a in Hunk.
+      pose proof (b_unk _ _ _ B) as Hunk. fold cf a in Hunk.
       destruct (lock_nodes_spec cf LKs F0) as [N1 N2].
       { intros h q Hh Eq Kq. destruct (pchain_parent _ _ _ HpcL _ _ Hh Eq) as [->|H]; [contradiction|exact H]. }
       set (nodes := lock_iter (pl cf) (tfb cf) (rev LKs) []) in *.
@@ -558,9 +489,8 @@ Proof.
       pose proof (link_ranked _ _ _ _ HD L0) as Hrk0.
       assert (Hrk'' : ranked rk p'').
       { intros h q E. apply (Hrk0 h q). now apply P1. }
-      destruct (load_nodes_safe rk empty_finder nodes p'' N'' finder_ok_empty Hreg Hrk'') with (prio := prio)
+      destruct (load_nodes_ok rk empty_finder nodes p'' N'' finder_ok_empty Hreg Hrk'') with (prio := prio)
         as (cf'' & Hload & F'' & Epl'').
-      { intros t a0 c0 _ _ _ Hk0. exfalso. apply Hk0. reflexivity. }
       rewrite <- Epl'' in *.
       assert (Hunk'' : ~ kn (pl cf'') a').
       { intros K. unfold kn in K. destruct (dget a' (pl cf'')) as [q|] eqn:E; [|congruence].
@@ -574,95 +504,78 @@ Proof.
           + right. eapply Nat.le_trans; [exact H|exact RkA].
         - apply (l_w _ _ _ _ L0).
         - apply (l_wD _ _ _ _ L0). }
-      destruct (reported_heaviest pref a' (bc_w bc) cf'' F'' Hunk'') as (c'' & (cs & Hall & Ec'') & Hpc'' & Hmax'' & Htree'').
-      { intros h. exact (link_weight_nonneg _ _ _ _ HD L'' h). }
-      { intros h. exact (link_weight_pos _ _ _ _ HD L'' h). }
+      (* the rest of the reported chain is a heaviest chain from the new anchor *)
       assert (Hheavy'' : heaviest D a' (rev c'')).
-      { split; [exact (pchain_is_chain _ _ _ _ L'' _ _ Hpc'')|].
-        intros c1 Hc1. rewrite <- !(link_chain_weight _ _ _ _ HD L''). apply Hmax''.
-        exact (is_chain_pchain _ _ _ _ HD L'' _ _ Hc1 (le_n _)). }
-      (* the remaining part of the old chain is the new reported chain *)
-      assert (Etail : rev c'' = tail).
-      { destruct Hheavy'' as [Hch'' Hmx''].
-        pose proof (Hmx'' tail HchT) as Hw1.
-        assert (Hc1 : heaviest D a (LKs ++ rev c'')).
-        { split; [apply is_chain_app; split; [exact HchL|exact Hch'']|].
-          intros c1 Hc1. apply Hmax in Hc1. rewrite Esplit in Hc1. rewrite cweight_app in *. lia. }
-        assert (Hin1 : In (LKs ++ rev c'') (heaviest_chains (sh_D sh) (sh_anchor sh))).
-        { apply heaviest_in_chains; [exact HDs|]. rewrite <- Hpar. fold a. eapply heaviest_ext; eauto. }
-        rewrite Ehc in Hin1. apply Huniq in Hin1. rewrite Esplit in Hin1. now apply app_inv_head in Hin1. }
-      set (bc2 := mkBC a' (bc_locked bc ++ items) (bc_h2i bc) (bc_w bc) cf'' None).
+      { rewrite Etail. split; [exact HchT|]. intros c1 Hc1.
+        assert (Hc2 : is_chain D a (LKs ++ c1)) by (apply is_chain_app; split; [exact HchL|exact Hc1]).
+        apply Hmax in Hc2. rewrite Esplit in Hc2. rewrite !cweight_app in Hc2. lia. }
+      assert (Hcp'' : c'' = [] \/ ppath (pl cf'') (kn (pl cf'')) (hd 0 c'') (c'' ++ [a'])).
+      { destruct c'' as [|y0 r0] eqn:Ec0; [now left|right]. rewrite <- Ec0 in *.
+        destruct Hcp as [Hcn|Hp]; [exfalso; rewrite Hcn in Ec; destruct c''; [congruence|discriminate]|].
+        assert (Ehd : hd 0 c = hd 0 c'') by (rewrite Ec, Ec0; reflexivity).
+        rewrite Ehd in Hp. rewrite Ec in Hp. rewrite (rev_last_cons LKs a HLKne) in Hp. fold a' in Hp.
+        rewrite <- app_assoc in Hp. cbn [app] in Hp.
+        eapply ppath_prefix; [exact Hp| |exact Hunk''].
+        intros y Hy.
+        assert (Hyn : ~ In y LKs).
+        { intros Hi. apply (NoDup_remove_2 [] _ _) in Hnd || idtac.
+          assert (Hyt : In y tail) by (rewrite <- Etail; now apply in_rev in Hy || (apply -> in_rev; exact Hy)).
+          clear - Hnd Hi Hyt. induction LKs as [|z r IH]; [destruct Hi|]. cbn in Hnd. inversion Hnd; subst.
+          destruct Hi as [->|Hi]; [apply H1; rewrite in_app_iff; now right|auto]. }
+        assert (Ky : kn (pl cf) y).
+        { eapply (ppath_interior _ _ _ _ Hp). rewrite removelast_app by discriminate. rewrite in_app_iff. now left. }
+        unfold kn in Ky. destruct (dget y (pl cf)) as [q|] eqn:Eq; [|congruence].
+        pose proof (P2 _ _ Eq Hyn) as E2. split; [unfold kn; congruence|congruence]. }
       set (bc3 := mkBC a' (bc_locked bc ++ items) (bc_h2i bc) (bc_w bc) cf'' (Some c'')).
-      assert (Hll : longest_local pref bc2 = Ret (c'', bc3)).
-      { unfold longest_local. cbn [bc_cache bc_parent bc_cf bc_w bc2]. rewrite Hall, <- Ec''. reflexivity. }
       destruct (observe_spec pref None bc3 c'' eq_refl) as (s & Hobs & Hso & Hsc & Hsl & Hsh).
       assert (Eexcl : map (fun it : N * N * option Z => fst (fst it)) items = LKs) by exact Hitems.
       assert (Hstep : step (Lock n prio pref) bc = inl (s, bc3)).
-      { unfold step, lock_to_index. unfold longest_local at 1. unfold hash in *. rewrite Hc, Hnl.
-        destruct (Nat.leb_spec n (sh_nlocked sh)); [lia|]. fold k. fold a cf.
-        rewrite Eitems. unfold hash in *. rewrite Eexcl. fold nodes. rewrite Hload. fold a'. fold bc2.
-        rewrite (observe_uncached pref None bc2 c'' bc3 Hll eq_refl). now rewrite Hobs. }
+      { unfold step, lock_to_index. unfold longest_local at 1. unfold hash in *. rewrite Hc.
+        match goal with |- context [(n <=? ?x)%nat] => destruct (Nat.leb_spec n x) end; [lia|]. fold k. fold a cf.
+        rewrite Eitems. unfold hash in *. rewrite Eexcl. fold nodes. rewrite Hload. fold a'. fold c''. fold bc3.
+        now rewrite Hobs. }
       assert (Echain : chain_of bc3 c'' = chain_of bc c).
       { unfold chain_of. cbn [bc_locked bc3]. rewrite map_app. unfold fst3 in *. unfold hash in *.
         rewrite Hitems, Etail, <- app_assoc. f_equal. symmetry. exact Esplit. }
       exists s, bc3. split; [exact Hstep|].
       assert (Eo : ops_of s = []) by (unfold ops_of; now rewrite Hso). rewrite Eo, app_nil_r.
-      assert (B3 : BI bc3 (mkShadow (last LKs (sh_anchor sh)) (sh_nlocked sh + k) (sh_D sh)
-                             (fold_left (fun p h => ddel h p) LKs (sh_fk sh))) D allops).
-      { constructor; cbn [bc_cf bc_parent bc_locked bc_w bc_h2i bc_cache bc3 sh_fk sh_anchor sh_nlocked sh_D]; unfold hash in *.
+      assert (B3 : BI bc3 D allops).
+      { constructor; cbn [bc_cf bc_parent bc_locked bc_w bc_h2i bc_cache bc3]; unfold hash in *.
         - exact F''.
-        - intros x. destruct (fold_ddel_dget LKs (sh_fk sh) x) as [A1 A2]. unfold hash in *.
-          destruct (in_dec N.eq_dec x LKs) as [Hi|Hi].
-          + rewrite A1 by exact Hi. destruct (dget x (pl cf'')) as [q|] eqn:E; [|first [reflexivity|exact E]].
-            destruct (P1 _ _ E) as [_ H]. contradiction.
-          + rewrite A2 by exact Hi. rewrite <- (b_fk _ _ _ _ B). fold cf.
-            destruct (dget x (pl cf)) as [q|] eqn:E.
-            * exact (P2 _ _ E Hi).
-            * destruct (dget x (pl cf'')) as [q|] eqn:E'; [|first [reflexivity|exact E'|congruence]].
-              destruct (P1 _ _ E') as [E3 _]. unfold hash in *. rewrite E in E3. discriminate.
-        - unfold a'. now rewrite Hpar.
-        - rewrite app_length, Hilen, Hnl. reflexivity.
         - exact Hunk''.
         - exact L''.
-        - apply (b_shD _ _ _ _ B).
         - rewrite map_app. unfold fst3 in *. rewrite Hitems. rewrite last_app_ne by exact HLKne.
           unfold a'. apply last_default. exact HLKne.
-        - exists c''. split; [reflexivity|]. split.
-          + destruct Htree'' as [->|Ht]; [now left|right]. apply (proj1 F'' _ _ Ht).
-          + split; [exact Hheavy''|]. fold bc3. rewrite Echain. auto. }
+        - right. apply (is_chain_hashes _ _ _ HchL). exact Ha'in.
+        - exists c''. split; [reflexivity|]. split; [exact Hcp''|].
+          split; [exact Hheavy''|]. fold bc3. rewrite Echain. auto. }
       split; [|exact B3].
       eapply BI_good; [exact B3|reflexivity|exact Hsc|exact Hsl|exact Hsh].
 Qed.
 
-Lemma run_from_good : forall evs bc sh D allops,
-  BI bc sh D allops -> incl (D ++ all_headers evs) G -> excluded_from sh evs = None ->
+Lemma run_from_good : forall evs bc D allops,
+  BI bc D allops -> incl (D ++ all_headers evs) G ->
   forall tr st, run_from bc evs = (tr, st) ->
   (st = Done \/ st = OutOfRange) /\ good_trace anchor0 D allops evs tr.
 Proof.
-  induction evs as [|ev r IH]; intros bc sh D allops B HG Hex tr st Hrun.
+  induction evs as [|ev r IH]; intros bc D allops B HG tr st Hrun.
   - cbn in Hrun. inversion Hrun; subst. split; [now left|exact I].
-  - cbn [excluded_from] in Hex. cbn [run_from] in Hrun. cbn [all_headers flat_map] in HG.
+  - cbn [run_from] in Hrun. cbn [all_headers flat_map] in HG.
     assert (HD : incl D G) by (intros x Hx; apply HG; rewrite in_app_iff; now left).
     destruct ev as [hs prio pref|n prio pref].
     + cbn [headers_of] in HG.
       assert (HG1 : incl (D ++ hs) G) by (intros x Hx; apply HG; rewrite !in_app_iff in *; tauto).
-      destruct (shadow_step (Deliver hs prio pref) sh) as [sh'|k|] eqn:Es; [|discriminate|].
-      * destruct (deliver_step bc sh D allops hs prio pref sh' B HG1 Es) as (s & bc' & Hstep & Hgood & B').
-        rewrite Hstep in Hrun. destruct (run_from bc' r) as [tr' st'] eqn:Er. inversion Hrun; subst.
-        destruct (IH bc' sh' (D ++ hs) (allops ++ ops_of s) B') with (tr := tr') (st := st) as [A1 A2]; auto.
-        { intros x Hx. apply HG. rewrite !in_app_iff in *. cbn [all_headers]. tauto. }
-        split; [exact A1|]. cbn [good_trace headers_of]. split; [exact Hgood|exact A2].
-      * exfalso. cbn [shadow_step] in Es.
-        destruct (existsb (fun x => hh x =? sh_anchor sh) hs); [discriminate|].
-        destruct (bad_batch (sh_fk sh) (map (fun x => (hh x, hp x)) hs)); discriminate.
-    + pose proof (lock_step bc sh D allops n prio pref B HD) as Hl.
-      cbn [headers_of app] in HG.
-      destruct (shadow_step (Lock n prio pref) sh) as [sh'|k|] eqn:Es; [|discriminate|].
-      * destruct Hl as (s & bc' & Hstep & Hgood & B').
-        rewrite Hstep in Hrun. destruct (run_from bc' r) as [tr' st'] eqn:Er. inversion Hrun; subst.
-        destruct (IH bc' sh' D (allops ++ ops_of s) B') with (tr := tr') (st := st) as [A1 A2]; auto.
+      destruct (deliver_step bc D allops hs prio pref B HG1) as (s & bc' & Hstep & Hgood & B').
+      rewrite Hstep in Hrun. destruct (run_from bc' r) as [tr' st'] eqn:Er. inversion Hrun; subst.
+      destruct (IH bc' (D ++ hs) (allops ++ ops_of s) B') with (tr := tr') (st := st) as [A1 A2]; auto.
+      { intros x Hx. apply HG. rewrite !in_app_iff in *. cbn [all_headers]. tauto. }
+      split; [exact A1|]. cbn [good_trace headers_of]. split; [exact Hgood|exact A2].
+    + cbn [headers_of app] in HG.
+      destruct (lock_step bc D allops n prio pref B HD) as [(s & bc' & Hstep & Hgood & B')|Hstop].
+      * rewrite Hstep in Hrun. destruct (run_from bc' r) as [tr' st'] eqn:Er. inversion Hrun; subst.
+        destruct (IH bc' D (allops ++ ops_of s) B') with (tr := tr') (st := st) as [A1 A2]; auto.
         split; [exact A1|]. cbn [good_trace headers_of]. rewrite app_nil_r. split; [exact Hgood|exact A2].
-      * rewrite Hl in Hrun. inversion Hrun; subst. split; [now right|exact I].
+      * rewrite Hstop in Hrun. inversion Hrun; subst. split; [now right|exact I].
 Qed.
 
 Definition bc_init := mkBC anchor0 [] [] [] empty_finder (Some []).
@@ -674,37 +587,32 @@ Proof.
   - unfold add_headers. now rewrite E1, E2.
   - unfold lock_to_index. now rewrite E1, E2.
 Qed.
-Lemma BI_init : BI bc_init (mkShadow anchor0 0 [] []) [] [].
+Lemma BI_init : BI bc_init [] [].
 Proof.
   constructor; cbn.
   - exact finder_ok_empty.
-  - reflexivity.
-  - reflexivity.
-  - reflexivity.
   - intros H. apply H. reflexivity.
   - constructor; cbn; [discriminate|intros x []|intros x []|discriminate].
-  - tauto.
   - reflexivity.
+  - now left.
   - exists []. split; [reflexivity|]. split; [now left|]. split; [|split; [constructor|split; [|reflexivity]]].
     + split; [constructor|]. intros c' Hc'. inversion Hc'; subst; [cbn; lia|]. destruct H.
     + split; [intros i h E; destruct i; discriminate|intros h z E; discriminate].
 Qed.
 End Hist.
 
-Theorem partial_history : forall (anchor : hash) (evs : list event),
-  wf_headers anchor (all_headers evs) -> excluded anchor evs = None ->
+Theorem full_history : forall (anchor : hash) (evs : list event),
+  wf_headers anchor (all_headers evs) ->
   forall tr st, run anchor evs = (tr, st) ->
   (st = Done \/ st = OutOfRange) /\ good_trace anchor [] [] evs tr.
 Proof.
-  intros anchor evs ((rk & Hrk) & Hcons & Hpos) Hex tr st Hrun.
-  unfold run in Hrun. unfold excluded in Hex.
+  intros anchor evs ((rk & Hrk) & Hcons & Hpos) tr st Hrun.
+  unfold run in Hrun.
   assert (Hrun' : run_from (bc_init anchor) evs = (tr, st)).
-  { destruct evs as [|ev r]; [exact Hrun|]. cbn [run_from] in *. now rewrite <- step_init. }
-  apply (run_from_good anchor (all_headers evs) rk Hrk Hcons Hpos evs (bc_init anchor)
-           (mkShadow anchor 0 [] []) [] []).
-  - exact (BI_init anchor (all_headers evs) rk Hpos).
+  { destruct evs as [|ev r]; [exact Hrun|]. cbn [run_from] in *. now rewrite <- (step_init anchor). }
+  apply (run_from_good anchor (all_headers evs) rk Hrk Hcons Hpos evs (bc_init anchor) [] []).
+  - apply BI_init.
   - intros x Hx. exact Hx.
-  - exact Hex.
   - exact Hrun'.
 Qed.
 
@@ -724,10 +632,10 @@ Proof.
     cbn [all_headers flat_map]. fold (all_headers (firstn (S k') r)). rewrite !app_assoc. exact IH.
 Qed.
 
+
 Section Corollaries.
 Variables (anchor : hash) (evs : list event) (tr : list snapshot) (st : stop).
 Hypothesis Hwf : wf_headers anchor (all_headers evs).
-Hypothesis Hex : excluded anchor evs = None.
 Hypothesis Hrun : run anchor evs = (tr, st).
 Variables (k : nat) (s : snapshot).
 Hypothesis Hs : nth_error tr k = Some s.
@@ -736,27 +644,14 @@ Let D := all_headers (firstn (S k) evs).
 
 Lemma snapshot_good : good_snapshot anchor D (flat_map ops_of (firstn (S k) tr)) s.
 Proof.
-  destruct (partial_history anchor evs Hwf Hex tr st Hrun) as [_ Hg].
+  destruct (full_history anchor evs Hwf tr st Hrun) as [_ Hg].
   exact (good_trace_nth evs tr anchor [] [] Hg k s Hs Hk).
 Qed.
-Lemma snapshot_heaviest : heaviest D (snapshot_anchor anchor s) (skipn (s_locked s) (s_chain s)).
-Proof. apply snapshot_good. Qed.
-Lemma snapshot_chain : is_chain D anchor (s_chain s).
-Proof. apply snapshot_good. Qed.
+Lemma snapshot_chain_heaviest : is_chain D anchor (s_chain s) /\
+  heaviest D (snapshot_anchor anchor s) (skipn (s_locked s) (s_chain s)).
+Proof. split; apply snapshot_good. Qed.
 Lemma snapshot_maps : maps_agree (s_chain s) (s_h2i s).
 Proof. apply snapshot_good. Qed.
 Lemma snapshot_ops : apply_ops (flat_map ops_of (firstn (S k) tr)) [] = Some (s_chain s).
 Proof. apply snapshot_good. Qed.
 End Corollaries.
-
-Lemma snapshot_chain_heaviest :
-  forall anchor evs tr st, wf_headers anchor (all_headers evs) -> excluded anchor evs = None ->
-  run anchor evs = (tr, st) ->
-  forall k s, nth_error tr k = Some s -> (k < length evs)%nat ->
-  is_chain (all_headers (firstn (S k) evs)) anchor (s_chain s) /\
-  heaviest (all_headers (firstn (S k) evs)) (snapshot_anchor anchor s) (skipn (s_locked s) (s_chain s)).
-Proof.
-  intros anchor evs tr st Hwf Hex Hrun k s Hs Hk.
-  exact (conj (snapshot_chain anchor evs tr st Hwf Hex Hrun k s Hs Hk)
-              (snapshot_heaviest anchor evs tr st Hwf Hex Hrun k s Hs Hk)).
-Qed.
